@@ -23,6 +23,7 @@ ASSUMPTIONS = [
     "std HashMap<Key, Vec<Out>> / HashSet<Key> modelled by their map / set views (KMap, KSet): get, `.entry(k).or_default()` -> entry_or_default(k), drain() -> drain_all() returning the entries in an ARBITRARY order (distinct keys, covering the map), clear, insert, contains, is_empty; Key equality is spec equality (Eq/Hash agree with it)",
     "make_pair / the keyers are total functions (closure contracts); Clone yields an equal value (axiom_data_clone)",
     "V-ITER: `for x in &vec` / `for x in vec` / `for (k, v) in map.drain()` -> index loops over the vector / the drained entries",
+    "R-PROTO-BIN (environment of JoinLocalHash::next): the two-input start delivers, per iteration, elements of a side only before that side's end marker, each end marker once, FlushAndRestart/Terminate only after both, no timestamped elements/watermarks (the operator panics on them by design), and fewer than 2^64 elements in total (the per-side counters, used only for logging, do not overflow); the keyers are deterministic total functions",
     "the ship strategy (both sides hashed with the same key hash, ship.rs) and the two-input receiver's LeftEnd/RightEnd markers are outside this unit (the markers: unit binary_select)",
 ]
 PRELUDE = r'''
@@ -31,6 +32,18 @@ trait Data: Clone + Send + 'static {}
 trait ExchangeData: Data {}
 trait DataKey: Clone + Send + 'static {}
 type OuterJoinTuple<Out1, Out2> = (Option<Out1>, Option<Out2>);
+type BlockId = u64; type HostId = u64; type ReplicaId = u64; type Timestamp = i64;
+trait KeyerFn<Key, Out>: Fn(&Out) -> Key {}
+impl<Key, Out, T: Fn(&Out) -> Key> KeyerFn<Key, Out> for T {}
+trait Operator: Sized {
+    type Out;
+    spec fn hist(&self) -> Seq<StreamElement<Self::Out>>;
+    // what the environment promises about the sequence this operator delivers (R-PROTO-BIN for the two-input start)
+    spec fn proto_ok(h: Seq<StreamElement<Self::Out>>) -> bool;
+    fn next(&mut self) -> (r: StreamElement<Self::Out>)
+        ensures final(self).hist() == old(self).hist().push(r),
+                Self::proto_ok(old(self).hist()) ==> Self::proto_ok(final(self).hist());
+}
 broadcast use trusted_axioms::axiom_data_clone;
 
 // ---- std HashMap<K, Vec<V>> by its map view
@@ -224,6 +237,214 @@ SE_INNER = r"""
                         decreases __r@.len(),
 """
 
+NEXT_DEFS = r"""
+// ---- abstract view of the operator and the relation one input element induces on it
+struct SideV<K, V> { data: Map<K, Seq<V>>, keys: Set<K>, ended: bool }
+struct JV<K, A, B> { l: SideV<K, A>, r: SideV<K, B>, buf: Seq<(K, (Option<A>, Option<B>))> }
+spec fn sv<K: DataKey, V>(s: SideHashMap<K, V>) -> SideV<K, V> { SideV { data: s.data@, keys: s.keys@, ended: s.ended } }
+
+// a left element (k, a) arrives; lo / ro = the join keeps unmatched left / right elements
+spec fn arrive_l<K, A, B>(o: JV<K, A, B>, n: JV<K, A, B>, k: K, a: A, lo: bool, ro: bool) -> bool {
+    &&& n.r == o.r && n.l.ended == o.l.ended
+    &&& n.l.keys == (if ro { o.l.keys.insert(k) } else { o.l.keys })
+    &&& n.l.data == (if !o.r.ended { o.l.data.insert(k, at(o.l.data, k).push(a)) } else { o.l.data })
+    &&& n.buf =~= o.buf + (if o.r.data.contains_key(k) { Seq::new(o.r.data[k].len(), |i: int| (k, (Some(a), Some(o.r.data[k][i])))) }
+                           else if o.r.ended && lo { seq![(k, (Some(a), None::<B>))] } else { Seq::empty() })
+}
+spec fn arrive_r<K, A, B>(o: JV<K, A, B>, n: JV<K, A, B>, k: K, b: B, lo: bool, ro: bool) -> bool {
+    &&& n.l == o.l && n.r.ended == o.r.ended
+    &&& n.r.keys == (if lo { o.r.keys.insert(k) } else { o.r.keys })
+    &&& n.r.data == (if !o.l.ended { o.r.data.insert(k, at(o.r.data, k).push(b)) } else { o.r.data })
+    &&& n.buf =~= o.buf + (if o.l.data.contains_key(k) { Seq::new(o.l.data[k].len(), |i: int| (k, (Some(o.l.data[k][i]), Some(b)))) }
+                           else if o.l.ended && ro { seq![(k, (None::<A>, Some(b)))] } else { Seq::empty() })
+}
+// the left side ends: the unmatched right elements are emitted (outer join only), the right store is dropped
+spec fn end_l<K, A, B>(o: JV<K, A, B>, n: JV<K, A, B>, ro: bool) -> bool {
+    &&& n.l.ended && n.l.keys =~= Set::<K>::empty() && n.l.data == o.l.data
+    &&& n.r.data =~= Map::<K, Seq<B>>::empty() && n.r.keys == o.r.keys && n.r.ended == o.r.ended
+    &&& n.buf.len() >= o.buf.len() && n.buf.take(o.buf.len() as int) =~= o.buf
+    &&& (!ro ==> n.buf =~= o.buf)
+    &&& (ro ==> forall|k: K| #[trigger] proj(n.buf.skip(o.buf.len() as int), k)
+            =~= (if o.r.data.contains_key(k) && !o.l.keys.contains(k) { Seq::new(o.r.data[k].len(), |i: int| (None::<A>, Some(o.r.data[k][i]))) } else { Seq::empty() }))
+}
+spec fn end_r<K, A, B>(o: JV<K, A, B>, n: JV<K, A, B>, lo: bool) -> bool {
+    &&& n.r.ended && n.r.keys =~= Set::<K>::empty() && n.r.data == o.r.data
+    &&& n.l.data =~= Map::<K, Seq<A>>::empty() && n.l.keys == o.l.keys && n.l.ended == o.l.ended
+    &&& n.buf.len() >= o.buf.len() && n.buf.take(o.buf.len() as int) =~= o.buf
+    &&& (!lo ==> n.buf =~= o.buf)
+    &&& (lo ==> forall|k: K| #[trigger] proj(n.buf.skip(o.buf.len() as int), k)
+            =~= (if o.l.data.contains_key(k) && !o.r.keys.contains(k) { Seq::new(o.l.data[k].len(), |i: int| (Some(o.l.data[k][i]), None::<B>)) } else { Seq::empty() }))
+}
+// the keyers are pure functions: key_of is THE key of an element
+spec fn key_of<A, K, F: Fn(&A) -> K>(f: F, a: A) -> K { choose|k: K| f.ensures((&a,), k) }
+spec fn deterministic<A, K, F: Fn(&A) -> K>(f: F) -> bool { forall|a: &A, k1: K, k2: K| #[trigger] f.ensures((a,), k1) && #[trigger] f.ensures((a,), k2) ==> k1 == k2 }
+// one element pulled from the two-input start
+spec fn jl_step<K, A: Data, B: Data, F1: Fn(&A) -> K, F2: Fn(&B) -> K>(k1: F1, k2: F2, lo: bool, ro: bool, o: JV<K, A, B>, e: StreamElement<BinaryElement<A, B>>, n: JV<K, A, B>) -> bool {
+    match e {
+        StreamElement::Item(BinaryElement::Left(a)) => arrive_l(o, n, key_of(k1, a), a, lo, ro),
+        StreamElement::Item(BinaryElement::Right(b)) => arrive_r(o, n, key_of(k2, b), b, lo, ro),
+        StreamElement::Item(BinaryElement::LeftEnd) => end_l(o, n, ro),
+        StreamElement::Item(BinaryElement::RightEnd) => end_r(o, n, lo),
+        _ => n == o,
+    }
+}
+spec fn reach<K, A: Data, B: Data, F1: Fn(&A) -> K, F2: Fn(&B) -> K>(k1: F1, k2: F2, lo: bool, ro: bool, s0: JV<K, A, B>, evs: Seq<StreamElement<BinaryElement<A, B>>>, s1: JV<K, A, B>) -> bool
+    decreases evs.len()
+{
+    if evs.len() == 0 { s0 == s1 } else {
+        exists|m: JV<K, A, B>| reach(k1, k2, lo, ro, s0, evs.drop_last(), m) && #[trigger] jl_step(k1, k2, lo, ro, m, evs.last(), s1)
+    }
+}
+// R-PROTO-BIN: what the two-input start delivers within one iteration: elements of a side only before its end marker,
+// each end marker once, FlushAndRestart / Terminate only after both, no timestamps
+spec fn pstate<A: Data, B: Data>(h: Seq<StreamElement<BinaryElement<A, B>>>) -> Option<(bool, bool)>
+    decreases h.len()
+{
+    if h.len() == 0 { Some((false, false)) } else {
+        match pstate(h.drop_last()) {
+            None => None,
+            Some((le, re)) => match h.last() {
+                StreamElement::Item(BinaryElement::Left(_)) => if le { None } else { Some((le, re)) },
+                StreamElement::Item(BinaryElement::Right(_)) => if re { None } else { Some((le, re)) },
+                StreamElement::Item(BinaryElement::LeftEnd) => if le { None } else { Some((true, re)) },
+                StreamElement::Item(BinaryElement::RightEnd) => if re { None } else { Some((le, true)) },
+                StreamElement::FlushAndRestart => if le && re { Some((false, false)) } else { None },
+                StreamElement::Terminate => if !le && !re { Some((le, re)) } else { None },
+                StreamElement::FlushBatch => Some((le, re)),
+                _ => None,
+            },
+        }
+    }
+}
+"""
+NEXT_IMPL_SPEC = r"""
+    spec fn jv(&self) -> JV<Key, Out1, Out2> { JV { l: sv(self.left), r: sv(self.right), buf: self.buffer@ } }
+    spec fn wf(&self) -> bool {
+        &&& pstate(self.prev.hist()) is Some
+        &&& self.left.ended == (pstate(self.prev.hist())->0).0 && self.right.ended == (pstate(self.prev.hist())->0).1
+        // what the asserts at FlushAndRestart rely on
+        &&& (self.left.ended ==> self.left.keys@ =~= Set::<Key>::empty() && self.right.data@ =~= Map::<Key, Seq<Out2>>::empty())
+        &&& (self.right.ended ==> self.right.keys@ =~= Set::<Key>::empty() && self.left.data@ =~= Map::<Key, Seq<Out1>>::empty())
+        // the element counters (only logged) are bounded by the number of elements pulled
+        &&& self.left.count <= self.prev.hist().len() && self.right.count <= self.prev.hist().len()
+    }
+"""
+NEXT_SPEC = r"""
+        requires
+            old(self).wf(),
+            forall|a: &Out1| old(self).keyer1.requires((a,)), forall|b: &Out2| old(self).keyer2.requires((b,)),
+            deterministic(old(self).keyer1), deterministic(old(self).keyer2),
+            // R-PROTO-BIN (environment): the two-input start keeps to the marker protocol
+            OperatorChain::proto_ok(old(self).prev.hist()),
+            forall|h: Seq<StreamElement<BinaryElement<Out1, Out2>>>| #[trigger] OperatorChain::proto_ok(h) ==> pstate(h) is Some && h.len() < usize::MAX,
+        ensures
+            final(self).wf(), OperatorChain::proto_ok(final(self).prev.hist()),                                                    // #obl:next.inv_preserved
+            final(self).keyer1 == old(self).keyer1 && final(self).keyer2 == old(self).keyer2 && final(self).variant == old(self).variant,
+            final(self).prev.hist().len() >= old(self).prev.hist().len()
+                && final(self).prev.hist().take(old(self).prev.hist().len() as int) =~= old(self).prev.hist(),
+            // every element pulled in this call acted on the abstract state as jl_step prescribes, with the flags of the
+            // join variant; then either the oldest buffered tuple is returned, or a control element is forwarded
+            exists|mid: JV<Key, Out1, Out2>| #[trigger] reach(final(self).keyer1, final(self).keyer2, final(self).variant.s_left_outer(), final(self).variant.s_right_outer(),
+                    old(self).jv(), final(self).prev.hist().skip(old(self).prev.hist().len() as int), mid)
+                && (match r {
+                    StreamElement::Item(t) => mid.buf.len() > 0 && t == mid.buf[0] && final(self).jv() == (JV { buf: mid.buf.skip(1), ..mid }),
+                    StreamElement::FlushAndRestart => mid.buf.len() == 0 && mid.l.ended && mid.r.ended
+                        && final(self).jv() == (JV { l: SideV { ended: false, ..mid.l }, r: SideV { ended: false, ..mid.r }, buf: mid.buf }),
+                    _ => final(self).jv() == mid,
+                }),                                                                                                                 // #obl:next.every_pulled_element_dispatched_with_the_variant_flags
+"""
+
+NEXT_LOOP = r"""
+            invariant
+                self.wf(), OperatorChain::proto_ok(self.prev.hist()),
+                forall|h: Seq<StreamElement<BinaryElement<Out1, Out2>>>| #[trigger] OperatorChain::proto_ok(h) ==> pstate(h) is Some && h.len() < usize::MAX,
+                forall|a: &Out1| self.keyer1.requires((a,)), forall|b: &Out2| self.keyer2.requires((b,)),
+                deterministic(self.keyer1), deterministic(self.keyer2),
+                self.keyer1 == old(self).keyer1 && self.keyer2 == old(self).keyer2 && self.variant == old(self).variant,
+                self.prev.hist().len() >= old(self).prev.hist().len() && self.prev.hist().take(old(self).prev.hist().len() as int) =~= old(self).prev.hist(),
+                reach(self.keyer1, self.keyer2, self.variant.s_left_outer(), self.variant.s_right_outer(), old(self).jv(),
+                      self.prev.hist().skip(old(self).prev.hist().len() as int), self.jv()),
+"""
+
+NEXT_STEP_HINT = r"""
+            proof {
+                let k = old(self).prev.hist().len() as int;
+                let pulled = self.prev.hist().skip(k);
+                assert(pulled =~= h0.skip(k).push(ge));
+                assert(pulled.drop_last() =~= h0.skip(k));
+                let lo = self.variant.s_left_outer(); let ro = self.variant.s_right_outer();
+                let n = self.jv(); let nb = n.buf.skip(j0.buf.len() as int);
+                match ge {
+                    StreamElement::Item(BinaryElement::Left(a)) => {
+                        let key = key_of(self.keyer1, a);
+                        assert(self.keyer1.ensures((&a,), key));
+                        assert(n.buf =~= j0.buf + nb);
+                        if j0.r.data.contains_key(key) {
+                            assert(nb.len() == j0.r.data[key].len());
+                            assert forall|i: int| 0 <= i < nb.len() implies #[trigger] nb[i] == (key, (Some(a), Some(j0.r.data[key][i]))) by {
+                                assert(seconds(nb)[i] == nb[i].1);
+                                assert(nb[i] == n.buf[j0.buf.len() + i]);
+                            }
+                            assert(nb =~= Seq::new(j0.r.data[key].len(), |i: int| (key, (Some(a), Some(j0.r.data[key][i])))));
+                        }
+                        assert(arrive_l(j0, n, key, a, lo, ro));   // #obl:next.left_element_handled_as_the_variant_prescribes
+                    }
+                    StreamElement::Item(BinaryElement::Right(b)) => {
+                        let key = key_of(self.keyer2, b);
+                        assert(self.keyer2.ensures((&b,), key));
+                        assert(n.buf =~= j0.buf + nb);
+                        if j0.l.data.contains_key(key) {
+                            assert(nb.len() == j0.l.data[key].len());
+                            assert forall|i: int| 0 <= i < nb.len() implies #[trigger] nb[i] == (key, (Some(j0.l.data[key][i]), Some(b))) by {
+                                assert(seconds(nb)[i] == nb[i].1);
+                                assert(nb[i] == n.buf[j0.buf.len() + i]);
+                            }
+                            assert(nb =~= Seq::new(j0.l.data[key].len(), |i: int| (key, (Some(j0.l.data[key][i]), Some(b)))));
+                        }
+                        assert(arrive_r(j0, n, key, b, lo, ro));   // #obl:next.right_element_handled_as_the_variant_prescribes
+                    }
+                    StreamElement::Item(BinaryElement::LeftEnd) => {
+                        if ro {
+                            assert forall|kk: Key| #[trigger] proj(nb, kk)
+                                =~= (if j0.r.data.contains_key(kk) && !j0.l.keys.contains(kk) { Seq::new(j0.r.data[kk].len(), |i: int| (None::<Out1>, Some(j0.r.data[kk][i]))) } else { Seq::empty() }) by { }
+                        }
+                        assert(end_l(j0, n, ro));   // #obl:next.left_end_handled_as_the_variant_prescribes
+                    }
+                    StreamElement::Item(BinaryElement::RightEnd) => {
+                        if lo {
+                            assert forall|kk: Key| #[trigger] proj(nb, kk)
+                                =~= (if j0.l.data.contains_key(kk) && !j0.r.keys.contains(kk) { Seq::new(j0.l.data[kk].len(), |i: int| (Some(j0.l.data[kk][i]), None::<Out2>)) } else { Seq::empty() }) by { }
+                        }
+                        assert(end_r(j0, n, lo));   // #obl:next.right_end_handled_as_the_variant_prescribes
+                    }
+                    _ => {}
+                }
+                assert(jl_step(self.keyer1, self.keyer2, lo, ro, j0, ge, n));
+                assert(pulled.drop_last() == h0.skip(k)); assert(pulled.last() == ge);
+                assert(reach(self.keyer1, self.keyer2, lo, ro, old(self).jv(), pulled.drop_last(), j0));
+                assert(reach(self.keyer1, self.keyer2, lo, ro, old(self).jv(), pulled, n));
+                assert(self.wf());
+            }
+"""
+NEXT_PULLED_HINT = r"""
+            proof {
+                assert(self.prev.hist() == h0.push(ge));
+                assert(h0.push(ge).drop_last() =~= h0);
+                assert(pstate(self.prev.hist()) is Some);
+            }"""
+NEXT_RETURN_HINT = r"""proof {
+                        let k = old(self).prev.hist().len() as int;
+                        let pulled = self.prev.hist().skip(k);
+                        assert(pulled =~= h0.skip(k).push(ge));
+                        assert(pulled.drop_last() =~= h0.skip(k));
+                        assert(jl_step(self.keyer1, self.keyer2, self.variant.s_left_outer(), self.variant.s_right_outer(), j0, ge, j0));
+                        assert(pulled.drop_last() == h0.skip(k)); assert(pulled.last() == ge);
+                        assert(reach(self.keyer1, self.keyer2, self.variant.s_left_outer(), self.variant.s_right_outer(), old(self).jv(), pulled.drop_last(), j0));
+                        assert(reach(self.keyer1, self.keyer2, self.variant.s_left_outer(), self.variant.s_right_outer(), old(self).jv(), pulled, j0));
+                    }
+                    """
+
+
 HISTORY = r'''
 use vstd::multiset::*;
 enum Ev<K, A, B> { L(K, A), R(K, B), LEnd, REnd }
@@ -364,11 +585,11 @@ proof fn lemma_right_arrival_refines<A, B>(b: B, stored: Seq<A>, app: Seq<(Optio
 
 
 def build(x):
-    pieces = [S.CLONE_IS_EQ, S.RUST_PANIC, PRELUDE]
+    pieces = [S.CLONE_IS_EQ, S.RUST_PANIC, S.VECDEQUE_IS_EMPTY, PRELUDE]
     jv = x.enum(FJ, 'JoinVariant')
-    lo = x.method(FJ, 'JoinVariant', 'left_outer'); lo.name_result('r'); lo.add_spec("        ensures r == (self is Left || self is Outer), // #obl:variant.left_outer")
-    ro = x.method(FJ, 'JoinVariant', 'right_outer'); ro.name_result('r'); ro.add_spec("        ensures r == (self is Outer), // #obl:variant.right_outer")
-    pieces += [jv, "impl JoinVariant {", lo, ro, "}"]
+    lo = x.method(FJ, 'JoinVariant', 'left_outer'); lo.name_result('r'); lo.add_spec("        ensures r == self.s_left_outer(), // #obl:variant.left_outer")
+    ro = x.method(FJ, 'JoinVariant', 'right_outer'); ro.name_result('r'); ro.add_spec("        ensures r == self.s_right_outer(), // #obl:variant.right_outer")
+    pieces += [jv, "impl JoinVariant {\n    spec fn s_left_outer(&self) -> bool { self is Left || self is Outer }\n    spec fn s_right_outer(&self) -> bool { self is Outer }", lo, ro, "}"]
     sh = x.struct(F, 'SideHashMap')
     sh.sub('V-SUBST', r'data: HashMap<Key, Vec<Out>, crate::block::GroupHasherBuilder>,', 'data: KMap<Key, Out>,', detail='HashMap -> map-view model KMap', must=True)
     sh.sub('V-SUBST', r'keys: HashSet<Key>,', 'keys: KSet<Key>,', detail='HashSet -> set-view model KSet', must=True)
@@ -427,7 +648,40 @@ def build(x):
                     if m0.contains_key(k) { let i = choose|i: int| 0 <= i < d0.len() && (#[trigger] d0[i]).0 == k; }
                 }
             }""")
-    pieces += ["struct JoinLocalHash<Key, Out1, Out2> { _p: core::marker::PhantomData<(Key, Out1, Out2)> }",
-               SIDE_ENDED_DEFS,
-               "impl<Key: DataKey, Out1: ExchangeData, Out2: ExchangeData> JoinLocalHash<Key, Out1, Out2> {", ai, se, "}", HISTORY]
+    FO = 'src/operator/mod.rs'; FN = 'src/network/mod.rs'; FBIN = 'src/operator/start/binary.rs'
+    sel = x.enum(FO, 'StreamElement')
+    be = x.enum(FBIN, 'BinaryElement')
+    co = x.struct(FN, 'Coord'); co.text = '#[derive(Clone, Copy)]\n' + co.text
+    js = x.struct(F, 'JoinLocalHash')
+    js.text = '#[verifier::reject_recursive_types(Out1)]\n#[verifier::reject_recursive_types(Out2)]\n#[verifier::reject_recursive_types(Key)]\n#[verifier::reject_recursive_types(Keyer1)]\n#[verifier::reject_recursive_types(Keyer2)]\n#[verifier::reject_recursive_types(OperatorChain)]\n' + js.text
+    HDR = ("impl<Key: DataKey, Out1: ExchangeData, Out2: ExchangeData, Keyer1: KeyerFn<Key, Out1>, Keyer2: KeyerFn<Key, Out2>, "
+           "OperatorChain: Operator<Out = BinaryElement<Out1, Out2>>> JoinLocalHash<Key, Out1, Out2, Keyer1, Keyer2, OperatorChain> {")
+    nx = x.method(F, 'JoinLocalHash', 'next', trait='Operator')
+    nx.desugar_assert()
+    nx.sub('V-SUBST', r'panic!\("Cannot yet join timestamped streams"\)', 'rust_panic()', detail='panic!(msg) -> rust_panic() (requires false): the absence of the panic is an obligation')
+    nx.sub('V-SPEC', r'match self\.prev\.next\(\) \{', 'let ghost h0 = self.prev.hist(); let ghost j0 = self.jv();\n            let __e = self.prev.next();\n            let ghost ge = __e;\n            match __e {', detail='scrutinee bound to a ghost-visible name `__e`', must=True)
+    nx.sub('V-CLOSURE', r'\|(\w+), (\w+)\| \(\1, \2\)', r'|\1: Option<Out1>, \2: Option<Out2>| -> (o: OuterJoinTuple<Out1, Out2>) ensures o == (\1, \2) { (\1, \2) }',
+           detail='pair-constructor closure |x, y| (x, y): parameter types, named result and ensures added, body verbatim', must=True)
+    nx.sub('V-CLOSURE', r'\|(\w+), (\w+)\| \(\2, \1\)', r'|\1: Option<Out2>, \2: Option<Out1>| -> (o: OuterJoinTuple<Out1, Out2>) ensures o == (\2, \1) { (\2, \1) }',
+           detail='pair-constructor closure |x, y| (y, x): parameter types, named result and ensures added, body verbatim', must=True)
+    nx.name_result('r')
+    nx.add_spec(NEXT_SPEC)
+    nx.text = '#[verifier::exec_allows_no_decreases_clause]\n' + nx.text
+    nx.insert_at_body_start('\n        proof { assert(self.prev.hist().skip(self.prev.hist().len() as int) =~= Seq::<StreamElement<BinaryElement<Out1, Out2>>>::empty()); }')
+    nx.add_loop_spec(1, NEXT_LOOP)
+    nx.insert_at_loop_end(1, NEXT_STEP_HINT)
+    nx.insert_after('let ghost ge = __e;', NEXT_PULLED_HINT)
+    nx.insert_before('return StreamElement::FlushAndRestart;', NEXT_RETURN_HINT)
+    nx.insert_before('return StreamElement::Terminate', '{ ' + NEXT_RETURN_HINT)
+    nx.sub('V-SPEC', r'(return StreamElement::Terminate),', r'\1 },', detail='match arm `=> return X,` braced so that a proof block can precede the return')
+    nx.insert_before('return StreamElement::FlushBatch', '{ ' + NEXT_RETURN_HINT)
+    nx.sub('V-SPEC', r'(return StreamElement::FlushBatch),', r'\1 },', detail='match arm `=> return X,` braced so that a proof block can precede the return')
+    nx.insert_before('let item = self.buffer.pop_front().unwrap();', 'let ghost midj = self.jv();\n        ')
+    nx.insert_after('let item = self.buffer.pop_front().unwrap();', '''
+        proof {
+            assert(self.buffer@ =~= midj.buf.skip(1));
+            assert(self.jv() == (JV { buf: midj.buf.skip(1), ..midj }));
+            assert(reach(self.keyer1, self.keyer2, self.variant.s_left_outer(), self.variant.s_right_outer(), old(self).jv(), self.prev.hist().skip(old(self).prev.hist().len() as int), midj));
+        }''')
+    pieces += [sel, be, co, js, SIDE_ENDED_DEFS, NEXT_DEFS, HDR, NEXT_IMPL_SPEC, ai, se, nx, "}", HISTORY]
     return pieces
